@@ -262,6 +262,8 @@ fn arch_data(arch: u8, tier: Tier) -> BoxedStrategy<Data> {
                 .prop_map(move |(k, d, seed)| Seg::Opcode { len: (k + d).saturating_sub(12), arch, seed }),
             3 => (0u32..max, any::<u32>()).prop_map(move |(len, off)| Seg::Exe { len, file: exe_index(arch), off }),
             1 => (0u32..24, any::<u64>()).prop_map(|(len, seed)| Seg::Rand { len, seed }),
+            // x86 only: opcode clusters across every internal buffer boundary (the filter's prev_mask state)
+            if arch == 0 { 4 } else { 0 } => (4000u32..max.max(4001) * 2, any::<u64>()).prop_map(|(len, seed)| Seg::X86Soup { len, seed }),
         ],
         0..4,
     )
